@@ -47,13 +47,17 @@ MAGNITUDES = {'big': (np.float64, lambda v: v + 1000.0), 'f32big': (np.float32, 
               'tiny': (np.float64, lambda v: v * 1e-17),      # costs far outside the usual range of negative log-probabilities
               'e100': (np.float64, lambda v: v * 1e100),      # finite, but beyond the range of single precision
               'neg': (np.float64, lambda v: v - 50.0),        # every cost negative (scores / negated probabilities used as costs): the minimum is unchanged
-              'int25': (np.float64, lambda v: float(round(v * 10) + 2 ** 25))}      # integer-valued costs that single precision cannot tell apart
-UNIT = {'tiny': 1e-17, 'e100': 1e100}
+              'int25': (np.float64, lambda v: float(round(v * 10) + 2 ** 25)),      # integer-valued costs that single precision cannot tell apart
+              'inf100': (np.float64, lambda v: v * 100.0)}     # impossible symbols (+inf, kept) next to finite costs of 10..300: a detour round an impossible cell costs hundreds
+UNIT = {'tiny': 1e-17, 'e100': 1e100, 'inf100': 100.0}
 
 
 def rows_for(C, dtype='f64'):
     if dtype == 'i64':
         return ROWS3I
+    if dtype == 'inf100':
+        f = MAGNITUDES[dtype][1]
+        return [[(f(v) if v != INF else INF) for v in r] for r in ROWS3]
     if dtype in MAGNITUDES:
         f = MAGNITUDES[dtype][1]
         return [[f(v) for v in r] for r in ROWS3 if INF not in r]
@@ -93,7 +97,7 @@ def shards(tier):
                 for p in itertools.product(range(R), repeat=2):
                     out.append({'C': C, 'T': t, 'prefix': list(p)})
     # the same search on matrices of other dtypes (float32, int64): unusual but legal inputs
-    for dt in ('f32', 'i64', 'big', 'f32big', 'tiny', 'e100', 'int25', 'neg'):
+    for dt in ('f32', 'i64', 'big', 'f32big', 'tiny', 'e100', 'int25', 'neg', 'inf100'):
         for t in range(1, b['Tdtype'] + 1):
             out.append({'C': 3, 'T': t, 'prefix': [], 'dtype': dt})
     # a 300-symbol output layer (blank = 299) with the labels held in small-integer numpy arrays
